@@ -1,16 +1,18 @@
 #!/bin/bash
 # usage: seedtest.sh <seed-name> <property> [extra check args]
-# applies /verif/seeded/<seed>/patch.diff to /repo, runs the quick check, undoes the patch.
+# applies /verif/seeded/<seed>/patch.diff to a scratch worktree of /repo (never to
+# /repo itself), runs the quick check against that worktree with evidence and
+# witnesses redirected to /tmp, and removes the worktree.
 seed=$1; prop=$2; shift 2
 p=/verif/seeded/$seed/patch.diff
 [ -f "$p" ] || { echo "no such seed $seed"; exit 2; }
-cd /repo || exit 2
-if [ -n "$(git status --porcelain)" ]; then echo "/repo not clean"; exit 2; fi
-git apply "$p" || git apply -3 "$p" || { echo "patch does not apply"; git checkout -- .; exit 2; }
-VERIF_EVIDENCE_DIR=/tmp/seedtest-evidence VERIF_WITNESS_DIR=/tmp/seedtest-witness /verif/bin/check "$prop" --tier quick "$@" > /tmp/seedtest.$seed.$prop.log 2>&1
+wt=/tmp/seedtest-wt.$$
+git -C /repo worktree add -q --detach $wt HEAD || exit 2
+cd $wt || exit 2
+git apply "$p" || git apply -3 "$p" || { echo "patch does not apply"; cd /; git -C /repo worktree remove --force $wt; exit 2; }
+VERIF_REPO=$wt VERIF_EVIDENCE_DIR=/tmp/seedtest-evidence VERIF_WITNESS_DIR=/tmp/seedtest-witness /verif/bin/check "$prop" --tier quick "$@" > /tmp/seedtest.$seed.$prop.log 2>&1
 rc=$?
-git -C /repo checkout -- .
-git -C /repo status --porcelain | grep -v '^??' 
+cd /; git -C /repo worktree remove --force $wt
 echo "seed=$seed prop=$prop exit=$rc $(grep -c '^VIOLATION' /tmp/seedtest.$seed.$prop.log) violations; $(grep -m1 'rule=' /tmp/seedtest.$seed.$prop.log | cut -c1-220)"
 tail -1 /tmp/seedtest.$seed.$prop.log
 exit $rc
